@@ -36,3 +36,7 @@ package entity
 //@     invariant 0 <= rangepos && rangepos <= len(prefix)
 //@     invariant len(strings.builderContent[&primary]) == rangepos - secCount(rangepos) && len(strings.builderContent[&secondary]) == secCount(rangepos)
 //@     invariant forall k int :: { prefix[k] } 0 <= k && k < rangepos ==> (isSec(k) ? strings.builderContent[&secondary][secCount(k)] : strings.builderContent[&primary][k - secCount(k)]) == prefix[k]
+
+//@ func Id.String
+//@   purefn
+//@   ensures result == string(i)
